@@ -30,7 +30,8 @@ Tags(ev) ==
              \cup (IF ev.display = nm /\ ev.as_ref = nm THEN {} ELSE {"display"})
              \cup (IF ev.cookie = nm THEN {} ELSE {"cookie-encode"})
              \cup (IF ev.serde = Quoted(nm) THEN {} ELSE {"serde-encode"})
-             \cup (IF ev.icu = nm /\ ev.langid = nm THEN {} ELSE {"icu-locale"})
+             \* the ICU locale / language identifier OF THAT NAME (ICU canonicalises the casing; icuOfName is the driver's direct parse)
+             \cup (IF ev.icu = ev.icuOfName /\ ev.langid = ev.langidOfName THEN {} ELSE {"icu-locale"})
              \cup (IF ev.direction = ev.cldrDir THEN {} ELSE {"direction"})
         [] ev.op = "parse" ->
              LET i == ParseName(a.names, a.probes[ev.pi])
